@@ -25,11 +25,26 @@ extern "C" int pthread_cond_wait(pthread_cond_t* c, pthread_mutex_t* m) {
 }
 extern "C" int pthread_rwlock_wrlock(pthread_rwlock_t* l) {
   static auto real = (int (*)(pthread_rwlock_t*))dlsym(RTLD_NEXT, "pthread_rwlock_wrlock");
-  if (sched::managed()) unsupported("pthread_rwlock_wrlock");
+  if (sched::managed()) { sched::rw_wrlock(l); return 0; }
   return real(l);
 }
 extern "C" int pthread_rwlock_rdlock(pthread_rwlock_t* l) {
   static auto real = (int (*)(pthread_rwlock_t*))dlsym(RTLD_NEXT, "pthread_rwlock_rdlock");
-  if (sched::managed()) unsupported("pthread_rwlock_rdlock");
+  if (sched::managed()) { sched::rw_rdlock(l); return 0; }
+  return real(l);
+}
+extern "C" int pthread_rwlock_trywrlock(pthread_rwlock_t* l) {
+  static auto real = (int (*)(pthread_rwlock_t*))dlsym(RTLD_NEXT, "pthread_rwlock_trywrlock");
+  if (sched::managed()) return sched::rw_trywrlock(l) ? 0 : 16;
+  return real(l);
+}
+extern "C" int pthread_rwlock_tryrdlock(pthread_rwlock_t* l) {
+  static auto real = (int (*)(pthread_rwlock_t*))dlsym(RTLD_NEXT, "pthread_rwlock_tryrdlock");
+  if (sched::managed()) return sched::rw_tryrdlock(l) ? 0 : 16;
+  return real(l);
+}
+extern "C" int pthread_rwlock_unlock(pthread_rwlock_t* l) {
+  static auto real = (int (*)(pthread_rwlock_t*))dlsym(RTLD_NEXT, "pthread_rwlock_unlock");
+  if (sched::managed()) { sched::rw_unlock(l); return 0; }
   return real(l);
 }
